@@ -3,6 +3,7 @@ package main
 import (
 	"flag"
 	"math/rand"
+	"os"
 )
 
 func init() { subcmds["probe"] = probeMain }
@@ -30,7 +31,7 @@ func probeMain(args []string) int {
 				okc[kind]++
 			} else {
 				failc[kind]++
-				if failc[kind] <= 1 {
+				if failc[kind] <= 1 || os.Getenv("VH_PROBE_ALL") != "" {
 					say("h%d FAIL %s: %.160s\n", res.Height, h.Descr[i][j], t.Log)
 				}
 			}
